@@ -55,8 +55,8 @@ def one(job):
         if os.path.exists(f"{src}/{f}"):
             shutil.copy(f"{src}/{f}", f"{dst}/{f}")
     note = open(f"{src}/note.md").read() if os.path.exists(f"{src}/note.md") else ""
-    first = judge(FROZEN, f"{dst}/patch.diff", sid + "f")
     now = judge("/verif", f"{dst}/patch.diff", sid + "n")
+    first = now if os.environ.get("WAVE_SINGLE") else judge(FROZEN, f"{dst}/patch.diff", sid + "f")
     meta = dict(
         id=sid, property=prop, origin="independent sub-agent given only the property text and a scratch worktree",
         base_commit=ts.sh("git rev-parse --short HEAD", f"/tmp/wt_{tag}")[1].strip(),
@@ -66,7 +66,7 @@ def one(job):
             f"cd /tmp/wt_{tag} && git apply _out/{m}/patch.diff && /venv/bin/python -m pytest -q ... (baseline unchanged) && /venv/bin/python _out/{m}/demo.py (fails); git checkout -- molli; demo.py (passes)",
             "scratch worktree of /repo + patch; /venv/bin/python sa/check.py <each of the 19 properties> --tier quick --repo <worktree>; worktree removed",
         ],
-        frozen_engine=ts.sh("git rev-parse --short HEAD", FROZEN)[1].strip(),
+        frozen_engine=ts.sh("git rev-parse --short HEAD", "/verif" if os.environ.get("WAVE_SINGLE") else FROZEN)[1].strip(),
         caught_by_initial=first,
         caught_by=now,
     )
@@ -82,7 +82,7 @@ def one(job):
 if __name__ == "__main__":
     pre = sys.argv[1]
     nums = sys.argv[2:] or ["%02d" % i for i in range(1, 20)]
-    jobs = [(f"{pre}{n}", f"m{k}") for n in nums for k in (1, 2, 3, 4)]
+    jobs = [(f"{pre}{n}", f"m{k}") for n in nums for k in (1, 2, 3, 4, 5, 6)]
     jobs = [j for j in jobs if os.path.exists(f"/tmp/wt_{j[0]}/_out/{j[1]}/patch.diff")]
     # verify() works in the agent's worktree: one change of a worktree at a time -> parallel over worktrees only
     by_wt = {}
@@ -91,7 +91,7 @@ if __name__ == "__main__":
 
     def run_wt(js):
         return [one(j) for j in js]
-    with ThreadPoolExecutor(max_workers=5) as ex:
+    with ThreadPoolExecutor(max_workers=int(os.environ.get('WAVE_JOBS', '5'))) as ex:
         for rows in ex.map(run_wt, by_wt.values()):
             for sid, v, _ in rows:
                 print("%-10s %s" % (sid, v), flush=True)
